@@ -374,9 +374,15 @@ pub fn extract(srcs: &Sources, inv: &Inv, soft: &mut Vec<Failure>) -> R<String> 
             },
             _ => return fail("types.rs", &item, shape),
         }
+        // the method literal: through the constructor's data flow (pkce.rs: private assembling helpers and named constants
+        // are read through), or — for shapes outside that grammar — the one struct-literal field in the body
         let mut ml = MethodLit { hits: vec![] };
         ml.visit_block(&f.block);
-        match ml.hits.as_slice() {
+        let hits: Vec<String> = match crate::pkce::method_literal(ty, fname) {
+            Some(m) => vec![m],
+            None => ml.hits.clone(),
+        };
+        match hits.as_slice() {
             [m] => methods.push((fname.to_string(), m.clone())),
             _ => {
                 return fail(
